@@ -502,6 +502,58 @@ class Models:
             self.prog._conv_attr = nm
         return nm
 
+    def derived_unit_field(self, u: UnitV, attr, node):
+        """A field of units outside the vocabulary of the models: what the unit-creating code stores into it, evaluated
+        on the unit's own symbol / name / definition / type (None when the creating code stores no such field)."""
+        cache = self.st.__dict__.setdefault("derived_fields", {})
+        key = (self.st.ufind(u.uid), attr)
+        if key in cache:
+            return cache[key]
+        from .anchors import unit_creator, _direct_callees
+        try:
+            mk = unit_creator(self.prog)
+        except AnalysisError:
+            return None
+        funcs, todo = [], [mk]
+        while todo:
+            f = todo.pop(0)
+            if any(f is g for g in funcs):
+                continue
+            funcs.append(f)
+            todo.extend(g for g in _direct_callees(self.prog, f) if g.cls is mk.cls)
+        from .interp import Frame
+        for f in funcs:
+            a = f.node.args
+            params = [p.arg for p in a.posonlyargs + a.args]
+            for n in ast.walk(f.node):
+                if not (isinstance(n, ast.Assign) and len(n.targets) == 1 and isinstance(n.targets[0], ast.Attribute)
+                        and n.targets[0].attr == attr and isinstance(n.targets[0].value, ast.Name)
+                        and n.targets[0].value.id not in params):
+                    continue
+                names = {x.id for x in ast.walk(n.value) if isinstance(x, ast.Name)}
+                env = {}
+                for i, p_ in enumerate(params):
+                    if i == 0:
+                        env[p_] = ClsV(self.type_of_unit(u))
+                    elif "symbol" in p_:
+                        env[p_] = self.get_attr(u, "_symbol", node)
+                    elif "name" in p_:
+                        env[p_] = self.get_attr(u, "_name", node)
+                    else:
+                        env[p_] = self.get_attr(u, "_definition", node)
+                env[n.targets[0].value.id] = u
+                if not names <= set(env) | set(dir(__import__("builtins"))) | set(f.module.globals) | set(f.module.imports):
+                    continue        # computed from other locals: not reconstructed
+                fr = Frame(f, f.module, f.cls, env)
+                self.I.frames.append(fr)
+                try:
+                    v = self.I.eval(n.value)
+                finally:
+                    self.I.frames.pop()
+                cache[key] = v
+                return v
+        return None
+
     def unit_equiv(self, u: UnitV, node) -> V:
         """Summary of what _make_unit/_make_ref_unit store in Unit._equiv (rule R01.3)."""
         st = self.st
@@ -582,6 +634,11 @@ class Models:
                 return Num(RF.atom(("sf", self.st.ufind(obj.uid))), "dec")
             if attr == "__class__":
                 return TypeV("Currency" if self.decide_money(self.type_of_unit(obj), node) else "Unit")
+            if self.prog.lookup(self.prog.cls("Unit"), attr) is None and \
+                    not (self.prog.has_cls("Currency") and self.prog.lookup(self.prog.cls("Currency"), attr) is not None):
+                dv = self.derived_unit_field(obj, attr, node)
+                if dv is not None:
+                    return dv
             cname = "Currency" if (self.prog.has_cls("Currency") and self.lookup_needs_currency(obj, attr, node)) else "Unit"
             return self.class_attr(obj, cname, attr, node)
         if isinstance(obj, ClsV):
